@@ -161,7 +161,7 @@ Lemma dsl_use_by_value : forall L g fr st x v ps body,
   dsl_dget x (dsl_kv st (dfr_locals fr)) = Some v ->
   dsl_eval L (S (S g)) fr st (DeFunc ps [(x, DeVar x)] body) =
     (DrVal (DvFun (List.length st)), (st ++ [DoFun ps [(x, v)] body])%list).
-Proof. intros. simpl. rewrite H. reflexivity. Qed.
+Proof. intros. cbn [dsl_eval dsl_do dsl_eval_closed]. unfold dsl_var_read. rewrite H. reflexivity. Qed.
 
 (* ... and a later assignment to the local x does not reach into the function object *)
 Lemma dsl_sset_other : forall st l o k, k <> l -> dsl_sget (dsl_sset st l o) k = dsl_sget st k.
@@ -174,7 +174,7 @@ Lemma dsl_set_local_keeps_closure : forall fr st k v l,
   l <> dfr_locals fr -> dsl_sget (dsl_set_local fr st k v) l = dsl_sget st l.
 Proof.
   intros. unfold dsl_set_local, dsl_kv_put.
-  destruct (dsl_sget st (dfr_locals fr)) as [[| | |]|]; apply dsl_sset_other; exact H.
+  destruct (dsl_sget st (dfr_locals fr)) as [[| | | |]|]; apply dsl_sset_other; exact H.
 Qed.
 
 Definition dsl_scoping_stmt : Prop :=
